@@ -236,8 +236,19 @@ def run(tier, seed, replay=None):
                             "non-trivial = at least 3 tasks / at least one arg or option / at least one dependency path")
     # D3 corpus: the empty COND_DEPS
     cases = gen_for("C07", chk, tier)
-    # keep the observed root: the oracle needs absolute paths -> run_impl(keep_root) is handled inside run_cases via obs.root
-    run_cases(chk, cases, ["C07"])
+    # a nested invocation: cond itself runs inside a task, so COND_* are already set in its environment
+    inherited = {"COND_OUT": "/nonexistent/outer.task", "COND_DEPS": "/nonexistent/x.task:/nonexistent/y.task", "COND_NAME": "outer", "COND_SLOT": "7"}
+    saved = {k: os.environ.get(k) for k in inherited}
+    os.environ.update(inherited)
+    try:
+        run_cases(chk, cases[: len(cases) // 3], ["C07"])
+    finally:
+        for k, v in saved.items():
+            if v is None:
+                os.environ.pop(k, None)
+            else:
+                os.environ[k] = v
+    run_cases(chk, cases[len(cases) // 3:], ["C07"])
     n = 300 if tier == "quick" else 3000
     cc, cw = cmdline_cases(chk, n)
     lc, lw = lib_cases(chk, n)
